@@ -14,6 +14,7 @@ def renderCOp : COp → String
   | .storeMeta k st => "M:" ++ hexS k ++ ":" ++ (if st == statusReady then "r" else if st == s "error" then "e" else "o")
   | .store st => "S:" ++ hexS st.query
   | .remove k => "R:" ++ hexS k
+  | .metas l => "M:" ++ String.intercalate "+" (sortStrings (l.map (fun e => hexS e.1 ++ ":" ++ (if e.2 == statusReady then "r" else if e.2 == s "error" then "e" else "o"))))
 
 def concH (cmd : String) (args : List String) : Option String :=
   match cmd, args with
